@@ -149,7 +149,24 @@ func (env *Env) exec(n *Node) (reflect.Value, error) {
 	if ft.IsVariadic() && len(in) < ft.NumIn()-1 {
 		return reflect.Value{}, fmt.Errorf("dsltree: %s wants at least %d arguments, got %d", n.Fn, ft.NumIn()-1, len(in))
 	}
-	out := fv.Call(in)
+	var out []reflect.Value
+	if ft.IsVariadic() {
+		// build the variadic slice by hand: with no variadic argument Go passes
+		// a nil slice, whereas reflect.Value.Call would pass an empty non-nil one
+		// (the DSL tells the two apart: `if adsl == nil`)
+		nfix := ft.NumIn() - 1
+		st := ft.In(nfix)
+		vs := reflect.Zero(st)
+		if len(in) > nfix {
+			vs = reflect.MakeSlice(st, 0, len(in)-nfix)
+			for _, v := range in[nfix:] {
+				vs = reflect.Append(vs, v)
+			}
+		}
+		out = fv.CallSlice(append(append([]reflect.Value{}, in[:nfix]...), vs))
+	} else {
+		out = fv.Call(in)
+	}
 	var res reflect.Value
 	if len(out) > 0 {
 		res = out[0]
